@@ -17,6 +17,8 @@ const (
 type Params struct {
 	NSites  int
 	SetHook func(func(uint32)) // installs the yield hook (verifsim.Hook)
+	// SetBlockHook installs the lock-contention hook (verifsim.BlockHook)
+	SetBlockHook func(func(uint32))
 	Idx     int
 }
 
@@ -129,8 +131,14 @@ func Run(run *kernel.Run, p Params) {
 	// ---- concurrent phase FIRST (cold objects, and cold package state in
 	// the first run of a process)
 	p.SetHook(s.Yield)
+	if p.SetBlockHook != nil {
+		p.SetBlockHook(s.Blocked)
+	}
 	s.Run()
 	p.SetHook(nil)
+	if p.SetBlockHook != nil {
+		p.SetBlockHook(nil)
+	}
 
 	run.Res.Steps = int(s.Steps)
 	run.Res.Sig = s.Sig()
@@ -147,6 +155,9 @@ func Run(run *kernel.Run, p Params) {
 	if s.FreeRun {
 		run.Fault("freerun_fallback")
 	}
+	if s.LockWaits > 0 {
+		run.Res.Faults["lock_contention_deschedules"] += s.LockWaits
+	}
 	run.Res.Probes["distinct_preemption_sites"] = len(s.PreemptAt)
 	run.Res.Probes["distinct_site_pairs"] = len(s.Pairs)
 	covered := 0
@@ -161,7 +172,7 @@ func Run(run *kernel.Run, p Params) {
 	run.Res.Cfg["hit_sites"] = hitBitmap(s.SiteHits)
 
 	if s.Deadlock {
-		run.Violate("C20", "deadlock", "conc", 0, "tasks did not finish within 60 s after the scheduler released everything (free-run fallback): a caller blocks forever")
+		run.Violate("C20", "deadlock", "conc", 0, "tasks did not finish within 20 s after the scheduler released everything (free-run fallback): a caller blocks forever")
 		return
 	}
 	if s.StepCapHit {
@@ -210,7 +221,10 @@ func Run(run *kernel.Run, p Params) {
 			if got != want {
 				run.Violate("C20", "result-differs-from-solo-run", name, ti, "task %d op %d %s(a=%d b=%d c=%d): concurrent result %s, the same call run alone on an independent clone gives %s", ti, i, name, o.A, o.B, o.C, got, want)
 			}
-			if strings.HasPrefix(got, "valid=") && got != "valid=1" {
+			if strings.HasPrefix(got, "valid=") && got != "valid=1" && want != "valid=1" {
+				// invalid also when run alone: not a concurrency defect
+				run.Probe("invalid_output_also_when_run_alone:" + name)
+			} else if strings.HasPrefix(got, "valid=") && got != "valid=1" {
 				run.Violate("C20", "invalid-output-under-concurrency", name, ti, "task %d op %d %s produced an invalid output under concurrency", ti, i, name)
 			}
 			// step-bounded progress (deterministic: steps are yield points)
